@@ -5272,9 +5272,14 @@ class FlowIRConcrete(object):
 
             for name in this_stage_vars:
                 try:
+                    # VV: A stage variable is either resolved completely or kept exactly as it was written, no matter
+                    #     whether the graph is primitive. With is_primitive=True a value such as
+                    #     "%(base)s/run-%(replica)s" would have its `base` frozen to the stage-level value in
+                    #     conf/flowir_instance.yaml while the running experiment (replicate() -> instance() with
+                    #     is_primitive=False) keeps it as is and lets each component resolve `base`: an instance that
+                    #     is loaded back from its files would then resolve a different value than the one that wrote it.
                     this_stage_vars[name] = FlowIR.interpolate(
                         this_stage_vars[name], context, label='variables.default.stages.%d.%s' % (stage_index, name),
-                        is_primitive=is_primitive
                     )
                 except experiment.model.errors.FlowIRVariableUnknown as e:
                     flowirLogger.warning('While interpolating stage index variables: %s' % e.message)
